@@ -31,6 +31,7 @@ def _api():
     from sympde.expr.evaluation import (TerminalExpr, _unpack_functions, BoundaryExpression, InterfaceExpression,
                                         DomainExpression)
     from sympde.core import Constant
+    from sympde.topology import NormalVector
     return locals()
 
 
@@ -184,6 +185,19 @@ def corpus(w):
         # repaired by 548b25b: the plus-side piece of a linear form did not reverse the normal
         out.append(('corpus:linear dot(grad(plus(v)),nn)', 'linear', None, w.v,
                     m['dot'](m['grad'](m['minus'](w.v)), w.nn) - m['dot'](m['grad'](m['plus'](w.v)), w.nn)))
+        # a number AND a Constant inside an explicit restriction (seeded change C07-6 lost the number)
+        from sympde.calculus import Dn
+        out.append(('corpus:minus(-kappa*Dn(u))*jump(v)', 'bilinear', w.u, w.v,
+                    m['minus'](-w.kappa * Dn(w.u)) * m['jump'](w.v)))
+        out.append(('corpus:x*jump(u)*plus(2*kappa*v)', 'bilinear', w.u, w.v,
+                    w.coords[0] * m['jump'](w.u) * m['plus'](2 * w.kappa * w.v)))
+        out.append(('corpus:linear minus(-kappa*Dn(v))+plus(3*kappa*v)', 'linear', None, w.v,
+                    w.coords[1] * m['minus'](-w.kappa * Dn(w.v)) + m['plus'](3 * w.kappa * w.v)))
+        # an explicit normal named 'n' next to the normal produced by Dn (fixed ab99c06: the plus-side sign
+        # depended on the hash seed), and a normal with another name (seeded change C07-5)
+        n1 = m['NormalVector']('n')
+        out.append(('corpus:dot(jump(f),n)*jump(Dn(v))', 'bilinear', w.U, w.v, m['dot'](m['jump'](w.U), n1) * m['jump'](Dn(w.v))))
+        out.append(('corpus:dot(jump(f),nn)*jump(v)', 'bilinear', w.U, w.v, m['dot'](m['jump'](w.U), w.nn) * m['jump'](w.v)))
     return out
 
 
